@@ -303,4 +303,123 @@ H = Harness(
     stubs=STUBS_COMMON,
 )
 
-HARNESSES = [H]
+
+# ------------------------------------------------------------------------------ T-two
+JOBKINDS = ["coroutine function", "callable object with async __call__", "UNHASHABLE callable object (dataclass with async __call__)",
+            "unhashable callable object taking task_status"]
+
+
+def two_params(tier):
+    return [P("handler", 0, 1), P("jobkind", 0, 3), P("api", 0, 1), P("order", 0, 1)]
+
+
+@guard
+def two_fn(a, tier):
+    """Two task factories started on ONE context at different times: each has its own snapshot and its own handle set; jobs may be any callable."""
+    from dataclasses import dataclass
+
+    handler_kind, jobkind, api, order = pick(a["handler"], 2), pick(a["jobkind"], 4), pick(a["api"], 2), pick(a["order"], 2)
+    seen = {}
+    problems = []
+    gate = {}
+
+    def handler(exc):
+        return True
+
+    async def body(tag):
+        seen[tag] = (sorted(get_resources(RT[0])), current_context().parent)
+        await gate["go"].wait()
+
+    def make_job(tag):
+        if jobkind == 0:
+            async def job():
+                await body(tag)
+            return job
+        if jobkind == 1:
+            class Job:
+                async def __call__(self):
+                    await body(tag)
+            return Job()
+        if jobkind == 2:
+            @dataclass
+            class RecordJob:
+                tag: str
+
+                async def __call__(self):
+                    await body(self.tag)
+            return RecordJob(tag)
+
+        @dataclass
+        class StatusJob:
+            tag: str
+
+            async def __call__(self, *, task_status):
+                task_status.started()
+                await body(self.tag)
+        return StatusJob(tag)
+
+    async def spawn(tf, tag):
+        job = make_job(tag)
+        if api == 0 or jobkind == 3:
+            return await tf.start_task(job, tag)
+        return tf.start_task_soon(job, tag)
+
+    async def main():
+        gate["go"] = anyio.Event()
+        async with Context() as owner:
+            owner.add_resource(object(), "early", [RT[0]])
+            kw = {"exception_handler": handler} if handler_kind else {}
+            tf1 = await owner.start_background_task_factory(**kw)
+            owner.add_resource(object(), "late", [RT[0]])
+            tf2 = await owner.start_background_task_factory(**kw)
+            pairs = [(tf1, "one"), (tf2, "two")]
+            if order:
+                pairs.reverse()
+            handles = {}
+            for tf, tag in pairs:
+                handles[tag] = await spawn(tf, tag)
+            await anyio.wait_all_tasks_blocked()
+            for tf, tag in pairs:
+                got = tf.all_task_handles()
+                if got != {handles[tag]}:
+                    problems.append((f"all_task_handles-of-factory-{tag}", f"{sorted(h.name for h in got)} expected [{tag!r}]"))
+            gate["go"].set()
+            for h in handles.values():
+                await h.wait_finished()
+            if tf1.all_task_handles() or tf2.all_task_handles():
+                problems.append(("handles-left", ""))
+            seen["ctxs"] = (seen.get("one", (None, None))[1], seen.get("two", (None, None))[1], owner)
+
+    _, exc, k = run(main)
+    summary = {"exception_handler": ["none", "the same function for both factories"][handler_kind], "job": JOBKINDS[jobkind],
+               "api": ["start_task", "start_task_soon"][api], "spawn_order": "two, one" if order else "one, two"}
+    if exc is not None:
+        return FAIL(f"two:raised:{type(flatten(exc)[0]).__name__}:job={jobkind}", repr(exc), summary)
+    if problems:
+        return FAIL(f"two:{problems[0][0]}", problems[0][1], summary)
+    if seen.get("one", (None,))[0] != ["early"] or seen.get("two", (None,))[0] != ["early", "late"]:
+        return FAIL("two:snapshot-of-the-wrong-moment", f"one sees {seen.get('one')} two sees {seen.get('two')}", summary)
+    c1, c2, owner = seen["ctxs"]
+    if c1 is None or c2 is None or c1.parent is not owner or c2.parent is not owner:
+        return FAIL("two:factory-contexts", "", summary)
+    if k.live_tasks():
+        return FAIL("two:task-alive", [t.name for t in k.live_tasks()], summary)
+    return OK(summary, True)
+
+
+TWO = Harness(
+    prop="C09",
+    name="T-two",
+    fn=two_fn,
+    params=two_params,
+    cube=lambda tier: 0,
+    title="two task factories started on one context at different times; jobs given as functions or (unhashable) callable objects",
+    bound_text=lambda tier: "factory 1 started, a resource added, factory 2 started (no handler / the same handler function for both); one task per factory, spawned in either "
+    "order by start_task / start_task_soon; the job is a " + " / ".join(JOBKINDS),
+    oracle="both factory contexts hang under the owner; each task sees the snapshot of ITS factory's start; each all_task_handles() is exactly its own task; "
+    "wait_finished() returns; nothing escapes, nothing left",
+    outside="-",
+    stubs=STUBS_COMMON,
+)
+
+HARNESSES = [H, TWO]
